@@ -213,6 +213,30 @@ def run(rep):
     rep.rule("H6 std-container fill_histogram: container reset iff !accumulate; vector sized numeric_limits<gray channel>::max()+1 before the loop, array index scaled by (size-1)/max; exactly one unconditional ++bin[gray value] per pixel of the whole view")
     rep.rule("H7 std-container cumulative_histogram: counter from 0, one loop over every index (map: every key in order), add then store, result returned")
     rep.rule("all rules compare canonical forms (R.canonize): parameters by position, locals by role, named intermediate values inlined")
+    rep.rule("H10 no accumulator of a histogram function truncates: in every instantiated fill / cumulative / normalize / sum / sub_histogram function a compound assignment "
+             "x op= y that is computed in a floating-point type has a floating-point x (the bins are double: `auto counter = 0; counter += bin` drops the fraction of every "
+             "normalised bin, the cumulative histogram of a normalised n-D histogram is 0 everywhere)")
+    FLOATS = {"float", "double", "long double"}
+    seen10 = set()
+    for f in fns:
+        k10 = "H10:%s%s" % (f["name"].replace("boost::gil::", ""), "<n-D>" if re.search(r"histogram<[^<>]*,[^<>]*>", f.get("full", "")) else "")
+        if f.get("body") is None:
+            continue
+        bad = []
+        nca = 0
+        for x, _ in R.find(f["body"], lambda x: x.get("k") == "CompoundAssign" and x.get("comp_c") is not None):
+            nca += 1
+            if x["comp_c"].replace("const ", "") in FLOATS and x["lhs_c"].replace("const ", "") not in FLOATS and x.get("op") in ("+=", "-=", "*=", "/="):
+                bad.append({"assignment": R.key(x)[:100], "computed in": x["comp_c"], "stored into": x["lhs_c"], "line": x.get("line")})
+        if not nca or (k10 in seen10 and not bad):
+            continue
+        seen10.add(k10)
+        rep.count("obligations:H10")
+        if bad:
+            rep.violation("H10-truncating-accumulator", k10, R.fn_where(f), {"truncating": bad, "example": "h.fill(rgb view); h.normalize(); cumulative_histogram(h): every bin 0 instead of a running total that ends at 1"})
+        else:
+            rep.ok("H10-truncating-accumulator", k10, "%d compound assignments, none truncates" % nca)
+    rep.floor("obligations:H10", 3)
     for f in fns:
         nm = f["name"]
         short = nm.split("::")[-1]
